@@ -1,9 +1,257 @@
-(** C05 — placeholder while the check is being built; replaced below. *)
-From Verif Require Import Lib.Base Repro.Doc.
+(** C05 — Edits through the format-preserving parser are local and read back.
+    Only statements; every proof is [exact <lemma>] or a short composition.
 
-Theorem C05_set_rejects_leave_unchanged :
-  forall d o e d', step d o = (Some e, d') -> d' = d.
+    Model: Repro/Doc.v (the functions [run_op], [step], [run], [dump], [getitem] that
+    Repro/DocCheck.agree runs against the implementation); proofs: Repro/DocProofs.v.
+
+    Vocabulary.
+      [split_doc d j = Some (a, p, b)]   paragraph [j] of the document is [p]; [a], [b] are the
+                                         items (paragraphs, comments, blank lines) before and after it.
+      [para_fields p = l1 ++ f :: l2], [has_name n f]
+                                         [f] is the field of [p] called [n] (any case spelling).
+      [field_text f = f_comment f ++ f_name f ++ f_rest f]
+                                         the field's own comment lines, its name as spelled in the
+                                         document, and everything from the colon to the end of its
+                                         last line.
+      [doc_ok d]                         a valid document: no paragraph has two fields with the same
+                                         name (case-insensitively), every field has its colon, and
+                                         only the very last item/field may lack its final newline.
+                                         (Paragraphs of valid documents are of the no-duplicates
+                                         class; the duplicate-fields class is modelled and compared
+                                         with the implementation but is outside these theorems.)
+      [own_lines v]                      the new field's text starts with its comment lines (each
+                                         complete), then a name made of field-name characters,
+                                         the colon, and it ends with a newline. *)
+From Coq Require Import String.
+From Verif Require Import Lib.Base Lib.Dec Lib.PyStr Gen.PyChars Repro.Doc Repro.DocInv Repro.DocProofs.
+
+(** 1. set_existing_local.  [p[k] = value] on a field that exists: every byte before the field's
+       value — including the field's own comment lines and the name in its original spelling — and
+       every byte after the field is unchanged; the new value starts at the colon and ends with a
+       newline.  For every valid document, every paragraph, every key form, every value for which
+       the call succeeds. *)
+Theorem C05_set_existing_local :
+  forall d j k value d' a p b l1 f l2,
+    doc_ok d = true ->
+    split_doc d j = Some (a, p, b) ->
+    para_fields p = l1 ++ f :: l2 -> has_name (key_name k) f = true ->
+    run_op d (OSet j k value) = Ok d' ->
+    exists rest',
+      dump d  = (dump a ++ ftext l1 ++ f_comment f ++ f_name f) ++ f_rest f ++ (ftext l2 ++ dump b) /\
+      dump d' = (dump a ++ ftext l1 ++ f_comment f ++ f_name f) ++ rest'    ++ (ftext l2 ++ dump b) /\
+      colon_first rest' = true /\ ends_nl rest' = true /\
+      d' = a ++ Para (PN (l1 ++ mkF (f_comment f) (f_name f) rest' :: l2)) :: b /\
+      doc_ok d' = true.
 Proof.
-  intros d o e d'. unfold step. destruct (run_op d o); intros H; inversion H; reflexivity.
+  intros d j k value d' a p b l1 f l2 Hok Hs Hpf Hf H.
+  pose proof (run_op_ok_preserved _ _ _ Hok H) as Hok'.
+  unfold doc_ok in Hok. apply andb_true_iff in Hok. destruct Hok as [Hinv _].
+  destruct (set_existing_bytes d (OSet j k value) d' a p b l1 f l2 Hinv eq_refl Hs Hpf Hf H)
+    as [v [H1 [H2 [H3 [H4 [H5 H6]]]]]].
+  cbn [op_comment] in H6. exists (f_rest v).
+  unfold own_lines in H5. apply andb_true_iff in H5. destruct H5 as [H5 _].
+  apply andb_true_iff in H5. destruct H5 as [H5 H5'].
+  apply andb_true_iff in H5. destruct H5 as [_ H5].
+  assert (Hv : v = mkF (f_comment f) (f_name f) (f_rest v)) by (destruct v; cbn in *; congruence).
+  unfold field_text in H1, H2. rewrite H4, H6 in H2.
+  repeat split; try assumption.
+  - rewrite H1. now rewrite <- !app_assoc.
+  - rewrite H2. now rewrite <- !app_assoc.
+  - now rewrite <- Hv.
 Qed.
+
+(** the same for set_field_to_simple_value / set_field_from_raw_string with any combination of
+    the comment arguments: the field's text is replaced as a whole (the comment may change, as
+    [op_comment] says), nothing else changes *)
+Theorem C05_set_existing_local_any_setter :
+  forall d o d' a p b l1 f l2,
+    doc_ok d = true ->
+    match o with ODel _ _ => false | _ => true end = true ->
+    split_doc d (op_para o) = Some (a, p, b) ->
+    para_fields p = l1 ++ f :: l2 -> has_name (key_name (op_key o)) f = true ->
+    run_op d o = Ok d' ->
+    exists v,
+      dump d  = (dump a ++ ftext l1) ++ field_text f ++ (ftext l2 ++ dump b) /\
+      dump d' = (dump a ++ ftext l1) ++ field_text v ++ (ftext l2 ++ dump b) /\
+      d' = a ++ Para (PN (l1 ++ v :: l2)) :: b /\
+      f_name v = f_name f /\ own_lines v = true /\ op_comment o (Some f) (f_comment v).
+Proof.
+  intros d o d' a p b l1 f l2 Hok. unfold doc_ok in Hok. apply andb_true_iff in Hok.
+  destruct Hok as [Hinv _]. now apply set_existing_bytes.
+Qed.
+
+(** 2. set_new_appends_own_lines.  A set under a name the paragraph does not have: the new field
+       is placed directly after the paragraph's last field, at the beginning of a line, on lines
+       of its own (name as given, colon, value, final newline); every byte before and after is
+       unchanged, except that a newline is supplied in front of it when the paragraph's text did
+       not end with one — which only happens at the very end of the document. *)
+Theorem C05_set_new_appends_own_lines :
+  forall d o d' a p b,
+    doc_ok d = true ->
+    match o with ODel _ _ => false | _ => true end = true ->
+    split_doc d (op_para o) = Some (a, p, b) ->
+    absent (key_name (op_key o)) (para_fields p) = true ->
+    run_op d o = Ok d' ->
+    exists v,
+      let pre := dump a ++ ftext (para_fields p) in
+      let nl := nl_suffix (ftext (para_fields p)) in
+      dump d  = pre ++ dump b /\
+      dump d' = pre ++ nl ++ field_text v ++ dump b /\
+      closed (pre ++ nl) = true /\ (nl <> [] -> b = []) /\
+      f_name v = key_name (op_key o) /\ own_lines v = true /\ op_comment o None (f_comment v) /\
+      d' = a ++ Para (PN (map_last add_nl (para_fields p) ++ [v])) :: b /\
+      doc_ok d' = true.
+Proof.
+  intros d o d' a p b Hok Hset Hs Hab H.
+  pose proof (run_op_ok_preserved _ _ _ Hok H) as Hok'.
+  destruct (new_field_position _ _ _ _ _ Hok Hs) as [Hc Hn].
+  unfold doc_ok in Hok. apply andb_true_iff in Hok. destruct Hok as [Hinv _].
+  destruct (set_new_bytes d o d' a p b Hinv Hset Hs Hab H) as [v [H1 [H2 [H3 [H4 [H5 H6]]]]]].
+  exists v. cbv zeta. repeat split; assumption.
+Qed.
+
+(** 3. delete_local.  [del p[k]]: the field disappears together with its own lines (comment
+       lines, name, value lines) and nothing else changes. *)
+Theorem C05_delete_local :
+  forall d j k d' a p b l1 f l2,
+    doc_ok d = true ->
+    split_doc d j = Some (a, p, b) ->
+    para_fields p = l1 ++ f :: l2 -> has_name (key_name k) f = true ->
+    run_op d (ODel j k) = Ok d' ->
+    dump d  = (dump a ++ ftext l1) ++ field_text f ++ (ftext l2 ++ dump b) /\
+    dump d' = (dump a ++ ftext l1) ++ (ftext l2 ++ dump b) /\
+    d' = a ++ Para (PN (l1 ++ l2)) :: b /\
+    doc_ok d' = true.
+Proof.
+  intros d j k d' a p b l1 f l2 Hok Hs Hpf Hf H.
+  pose proof (run_op_ok_preserved _ _ _ Hok H) as Hok'.
+  unfold doc_ok in Hok. apply andb_true_iff in Hok. destruct Hok as [Hinv _].
+  destruct (delete_bytes d j k d' a p b l1 f l2 Hinv Hs Hpf Hf H) as [H1 [H2 H3]].
+  now repeat split.
+Qed.
+
+(** a delete (or an indexed key) that names no field is rejected; see theorem 5 *)
+
+(** 4. set_rejects_leave_unchanged.  An operation that raises leaves the document as it was
+       (all four operations, all error kinds). *)
+Theorem C05_set_rejects_leave_unchanged :
+  forall d o e d', step d o = (Some e, d') -> d' = d /\ run_op d o = Err e.
+Proof. exact rejects_leave_unchanged. Qed.
+
+(** 5. edit_sequence.  For every history of operations on a valid document (any mixture of
+       set / delete / set_field_*, any paragraphs, accepted or rejected), at every point:
+       the document is valid; the next operation is either rejected and changes nothing, or it
+       edits only the fields of the paragraph it addresses in the way [para_edit] says
+       (replace one field in place / append one field / remove one field), all items before and
+       after that paragraph being identical; and over the whole history the free text between
+       paragraphs and the number and order of paragraphs never change. *)
+Theorem C05_edit_sequence :
+  forall d ops1 o ops2,
+    doc_ok d = true ->
+    let d1 := run d ops1 in
+    let d2 := run d (ops1 ++ [o]) in
+    doc_ok d1 = true
+    /\ ((exists e, run_op d1 o = Err e /\ d2 = d1) \/ (run_op d1 o = Ok d2 /\ local_step o d1 d2))
+    /\ doc_ok (run d (ops1 ++ o :: ops2)) = true
+    /\ skeleton (run d (ops1 ++ o :: ops2)) = skeleton d.
+Proof. exact edit_sequence. Qed.
+
+Theorem C05_histories_keep_validity :
+  forall ops d, doc_ok d = true -> doc_ok (run d ops) = true.
+Proof. exact run_ok. Qed.
+
+(** what [local_step] / [para_edit] mean at byte level is theorems 1-3; this is the general form
+    for one successful operation *)
+Theorem C05_successful_operation_is_local :
+  forall d o d',
+    doc_ok d = true -> run_op d o = Ok d' ->
+    doc_ok d' = true /\
+    exists a p b p',
+      split_doc d (op_para o) = Some (a, p, b) /\ d' = a ++ Para p' :: b /\ para_edit o p p' /\
+      dump d  = dump a ++ ftext (para_fields p)  ++ dump b /\
+      dump d' = dump a ++ ftext (para_fields p') ++ dump b.
+Proof.
+  intros d o d' Hok H. split; [now apply (run_op_ok_preserved d o)|].
+  unfold doc_ok in Hok. apply andb_true_iff in Hok. destruct Hok as [Hinv _].
+  destruct (run_op_local _ _ _ Hinv H) as [_ [a [p [b [p' [Hs [-> [_ He]]]]]]]].
+  exists a, p, b, p'. split; [exact Hs|]. split; [reflexivity|]. split; [exact He|].
+  split; [|apply dump_split].
+  rewrite (split_doc_eq _ _ _ _ _ Hs) at 1. apply dump_split.
+Qed.
+
+(** 6. set_readback_partial.  After a successful set, on the edited object: the new field is read
+       under every case spelling of its name (with or without index 0), the names of the
+       paragraph and their order are as before (plus the new name at the end when it was absent,
+       spelled as given).
+       FULL STATEMENT (not proved): re-parsing [dump d'] with the parser of Repro/Parse.v gives a
+       document whose abstraction is [d'], so that the same holds for a fresh parse; it needs the
+       printer/parser theorem [parse_dump_abs : doc_ok d -> abs (parse (dump d)) = d], which is not
+       proved (the fresh parse is covered by the correspondence check only: DocCheck.holds judges
+       the implementation's own re-parse of every dump). *)
+Theorem C05_set_readback_partial :
+  forall d o d' k',
+    doc_ok d = true ->
+    match o with ODel _ _ => false | _ => true end = true ->
+    run_op d o = Ok d' ->
+    name_eqb (key_name k') (key_name (op_key o)) = true -> plain_key k' = true ->
+    exists a p b p' v orig,
+      split_doc d (op_para o) = Some (a, p, b) /\ d' = a ++ Para p' :: b /\
+      new_for p (op_key o) p' v orig /\
+      getitem p' k' = Ok (value_str v) /\
+      map f_name (para_fields p') =
+        match orig with
+        | Some _ => map f_name (para_fields p)
+        | None => map f_name (para_fields p) ++ [key_name (op_key o)]
+        end.
+Proof.
+  intros d o d' k' Hok Hset H Hk Hplain.
+  unfold doc_ok in Hok. apply andb_true_iff in Hok. destruct Hok as [Hinv _].
+  destruct (run_op_local _ _ _ Hinv H) as [Hinv' [a [p [b [p' [Hs [-> [Hp He]]]]]]]].
+  assert (He' : exists v orig, own_lines v = true /\ new_for p (op_key o) p' v orig).
+  { destruct o; [|discriminate| |]; destruct He as [w [orig [H1 [H2 _]]]]; now exists w, orig. }
+  destruct He' as [v [orig [_ Hnew]]].
+  rewrite doc_inv_split in Hinv'. apply andb_true_iff in Hinv'. destruct Hinv' as [_ Hinv'].
+  apply andb_true_iff in Hinv'. destruct Hinv' as [Hp' _].
+  exists a, p, b, p', v, orig. repeat split; try assumption.
+  - now apply (getitem_new p (op_key o) p' v orig).
+  - now apply (names_after_set p (op_key o) p' v orig).
+Qed.
+
+(** Non-vacuity: a document with a head comment, two paragraphs (a field with its own comment, a
+    multi-line value with an inner comment line, tab continuation) and no final newline is valid;
+    a history that replaces a field under another spelling, adds a field to the unterminated last
+    paragraph, deletes a field, and contains two rejected calls produces the dumps below. *)
+Local Open Scope string_scope.
+Example C05_nonvacuous :
+  let s (x : String.string) := Lib.Dec.dec x in
+  let nl := [LF] in
+  let d : doc :=
+    [ Other OComment (s "# head" ++ nl); Other OWs nl;
+      Para (PN [ mkF [] (s "Package") (s ": foo" ++ nl);
+                 mkF (s "# why" ++ nl) (s "Depends") (s ": a," ++ nl ++ s "# inner" ++ nl ++ [TAB] ++ s "b" ++ nl) ]);
+      Other OWs nl;
+      Para (PN [ mkF [] (s "Package") (s ": bar") ]) ]%list in
+  let ops :=
+    [ OSet 0 (KStr (s "DEPENDS")) (s "x");
+      OSet 1 (KStr (s "New")) (s "m" ++ nl ++ s " l2")%list;
+      OSet 1 (KStr (s "a b")) (s "v");
+      ODel 0 (KStr (s "package"));
+      ODel 0 (KIdx (s "Depends") 1) ] in
+  doc_ok d = true
+  /\ split_doc d 1 = Some (firstn 4 d, PN [ mkF [] (s "Package") (s ": bar") ], [])
+  /\ map (fun o => fst (step d o)) ops = [None; None; Some ValueError; None; Some KeyError]
+  /\ dump (run d ops) =
+     (s "# head" ++ nl ++ nl ++ s "# why" ++ nl ++ s "Depends: x" ++ nl ++ nl
+      ++ s "Package: bar" ++ nl ++ s "New: m" ++ nl ++ s " l2" ++ nl)%list
+  /\ doc_ok (run d ops) = true.
+Proof. vm_compute. repeat split. Qed.
+
+Print Assumptions C05_set_existing_local.
+Print Assumptions C05_set_existing_local_any_setter.
+Print Assumptions C05_set_new_appends_own_lines.
+Print Assumptions C05_delete_local.
 Print Assumptions C05_set_rejects_leave_unchanged.
+Print Assumptions C05_edit_sequence.
+Print Assumptions C05_histories_keep_validity.
+Print Assumptions C05_successful_operation_is_local.
+Print Assumptions C05_set_readback_partial.
